@@ -606,6 +606,58 @@ func (r *runner) do(a string) bool {
 		r.record(fmt.Sprintf("ERemovePeer %d", j))
 		r.unobserved = false
 		r.record(fmt.Sprintf("ENet [DData %d %d 0]", j, sl))
+	case "heldkeys": // heldkeys down|remove J : Stop lands between the entry test and the hand-off of SendStagedPackets
+		j := arg(2)
+		p := r.peers[j]
+		if !r.up() || p == nil {
+			r.skipped++
+			return true
+		}
+		st := r.w.Dev.VerifPeer(pkOf(p.pub))
+		if !st.Found || !st.Running || !st.Current.Present || st.Current.SendNonce >= device.RejectAfterMessages-8 ||
+			time.Duration(st.Current.AgeNanos) > 100*time.Second || st.StagedLen != 0 {
+			r.skipped++ // needs a peer that would send at once
+			return true
+		}
+		release, ok := r.w.Dev.VerifHoldKeypairs(pkOf(p.pub))
+		if !ok {
+			r.skipped++
+			return true
+		}
+		// the TUN reader routes the packet, stages it, passes the entry test of SendStagedPackets and waits for the
+		// keypair set (no accessor that reads the keypair set may be called while it is held)
+		r.w.Tun.Inject(ref.IPv4([4]byte{10, 9, 9, 9}, [4]byte{10, 0, byte(j), 77}, 90, 1))
+		t0 := time.Now()
+		for !r.w.Tun.Idle() && time.Since(t0) < 2*time.Second {
+			time.Sleep(200 * time.Microsecond)
+		}
+		time.Sleep(20 * time.Millisecond)
+		done := make(chan struct{})
+		go func() {
+			if f[1] == "remove" {
+				r.w.Dev.IpcSet("public_key=" + hex.EncodeToString(p.pub[:]) + "\nremove=true\n")
+			} else {
+				r.w.Dev.Down()
+			}
+			close(done)
+		}()
+		time.Sleep(30 * time.Millisecond) // Stop has stopped the routines and waits in ZeroAndFlushAll for the keypair set
+		release()
+		select {
+		case <-done:
+		case <-time.After(10 * time.Second):
+			r.stuck = "Stop did not return after the keypair set was released"
+			return false
+		}
+		r.harvest(r.w.Take())
+		r.unobserved = true
+		r.record(fmt.Sprintf("ETun [TRoute %d]", j))
+		r.unobserved = false
+		if f[1] == "remove" {
+			r.record(fmt.Sprintf("ERemovePeer %d", j))
+		} else {
+			r.record("EDown")
+		}
 	case "straggle": // straggle J KIN KOUT : containers left behind Stop's terminator on peer J's queues (peer must be stopped)
 		p := r.peers[arg(1)]
 		if p == nil || !r.w.Dev.VerifInjectStragglers(pkOf(p.pub), arg(2), arg(3)) {
@@ -1189,6 +1241,7 @@ func directedPlans() (plans [][]string, names []string) {
 	add("stragglers-at-fatal-read", "down", "straggle 1 3 0", "fatalread", "gc")
 	add("removal-with-receiver-held", "net t 1 -1 ok", "removeheld 1", "tun r1", "net t 1 -1 ok", "removeheld 2", "gc")
 	add("configured-while-down", "down", "add 1 ep", "add 3", "tun r1,r3", "tun r1", "tunerr r1,r3", "add 2 ep pka", "tun r2", "up", "tun r1", "down", "add 1", "tun r1")
+	add("stop-inside-send-staged", "heldkeys down 1", "up", "heldkeys remove 2", "net h init 1", "net t 1 -1 ka", "heldkeys remove 1", "gc")
 	add("close-with-staged", "tun r3,r3,r3", "tun r1", "close", "gc", "tun r1")
 	add("close-down", "tun r3", "down", "close", "gc")
 	return
@@ -1234,6 +1287,8 @@ func randomPlan(r *rand.Rand, n int) []string {
 			p = append(p, "up")
 		case x < 87:
 			if r.Intn(4) == 0 {
+				p = append(p, fmt.Sprintf("heldkeys %s %d", []string{"down", "remove"}[r.Intn(2)], pe()))
+			} else if r.Intn(3) == 0 {
 				p = append(p, fmt.Sprintf("removeheld %d", pe()))
 			} else {
 				p = append(p, fmt.Sprintf("remove %d", pe()))
